@@ -66,8 +66,8 @@ CHECKS = {
    "DESIGN.md §6 C08"),
  "C07": ("exploration", "ENUM",
    "bounded-exhaustive enumeration of a (request limit, response limit) x message size x padding x entry point x body framing grid, handler log as oracle",
-   "8 limit pairs incl. unequal ones x sizes limit-2..limit+2, 1.5x, 2x, 10x x 3 padding styles x {TowerService HTTP, TowerService WS, http::call_with_service_builder, http::call_with_service, ws::connect} x 6 HTTP framings (Content-Length exact/absent/lying, 1/3/many frames); the message is always a valid call, so 'processed' is observable as 'handler ran once'; over the limit => no handler, -32007 / HTTP error status and the WS connection answers a later call; a second sweep holds the request limit and varies the response limit to show independence.",
-   "WebSocket messages are single unfragmented frames; in-memory duplex, not TCP (Server::start not exercised here).",
+   "8 limit pairs incl. unequal ones x sizes limit-2..limit+2, 1.5x, 2x, 10x x 3 padding styles x {TowerService HTTP, TowerService WS, http::call_with_service_builder, http::call_with_service, ws::connect, Server::start over loopback TCP (HTTP with Content-Length / chunked), Server::start over loopback TCP (WebSocket)} x 6 HTTP framings (Content-Length exact/absent/lying, 1/3/many frames); the message is always a valid call, so 'processed' is observable as 'handler ran once'; over the limit => no handler, -32007 / HTTP error status and the WS connection answers a later call; a second sweep holds the request limit and varies the response limit to show independence.",
+   "WebSocket messages are single unfragmented frames.",
    "DESIGN.md §6 C07"),
  "C01": ("exploration", "ENUM",
    "bounded-exhaustive enumeration of message byte strings (request products, token strings, byte-level mutations, all short byte strings) through both transports against an independent classifier",
